@@ -6,7 +6,7 @@
 (* clause prints <<"REJECT", id, property, clause>>, the spec state then   *)
 (* follows the SPECIFIED outcome and the walk continues.                   *)
 (***************************************************************************)
-EXTENDS Api, Json, IOUtils, TLC, TLCExt
+EXTENDS Api, Content, Json, IOUtils, TLC, TLCExt
 
 Events == ndJsonDeserialize(IOEnv.TRACE_FILE)
 
@@ -511,6 +511,30 @@ RpcRecv(e) ==
     /\ Chk(e, "C14", "reply_matched_by_valid_replies", e.accepted = IsReplyTo(e.name, st.rpc[e.ch]))
     /\ st' = [st EXCEPT !.rpc[e.ch] = IF IsReplyTo(e.name, st.rpc[e.ch]) THEN "" ELSE @]
 
+\* ---- content assembly (Content.tla; beyond the listed properties, judged under C18) ----
+CChans == 0..7
+ToC(f) == IF f.cls = "ContentHeader" THEN [kind |-> "header", size |-> NatOfMag(f.size)]
+          ELSE IF f.cls = "ContentBody" THEN [kind |-> "body", b |-> f.b]
+          ELSE IF f.cls = "Heartbeat" THEN [kind |-> "heartbeat"]
+          ELSE [kind |-> "method", name |-> f.cls]
+CReset(e) == st' = [st EXCEPT !.asm = [c \in CChans |-> Idle], !.cdel = [c \in CChans |-> <<>>], !.cpub = [c \in CChans |-> <<>>]]
+CPublish(e) == st' = [st EXCEPT !.cpub[e.ch] = Append(@, [method |-> e.method, size |-> Len(e.body), body |-> e.body])]
+CFrame(e) ==
+    LET ch == IF e.f.cls = "Heartbeat" THEN 0 ELSE e.ch
+        a  == Feed(st.asm[ch], ToC(e.f))
+        k  == Len(st.cdel[ch]) + 1
+    IN
+    /\ Premise(e, "content_size_fits", e.f.cls # "ContentHeader" \/ FitsNat31(e.f.size))
+    /\ Chk(e, "C18", "content_frames_in_protocol_order", a.mode # "error")
+    /\ Chk(e, "C18", "message_complete_when_sizes_add_up", e.done = (a.mode = "done"))
+    /\ Chk(e, "C18", "assembled_message_is_the_published_one",
+           a.mode = "done" => (k <= Len(st.cpub[ch]) /\ MessageOf(a) = st.cpub[ch][k]
+                               /\ (e.done => (e.msg.body = a.acc /\ e.msg.method = a.method /\ e.msg.size = a.size))))
+    /\ st' = [st EXCEPT !.asm[ch] = Settle(a), !.cdel[ch] = IF a.mode = "done" THEN Append(@, MessageOf(a)) ELSE @]
+CQuiesce(e) ==
+    /\ Chk(e, "C18", "every_published_message_delivered_in_order", \A c \in CChans : st.cdel[c] = st.cpub[c])
+    /\ UNCHANGED st
+
 ToggleArg(a) == IF a = "false" THEN FALSE ELSE TRUE      \* "true", "noarg" -> TRUE
 
 \* ---- the object world (Api.tla): identity, aliasing, purity (C16, C12) -----------
@@ -599,6 +623,10 @@ Step == /\ l <= Len(Events)
              [] e.a = "CharBlock"   -> CharBlock(e)
              [] e.a = "Observe"     -> Observe(e)
              [] e.a = "SameBytes"   -> SameBytes(e)
+             [] e.a = "CReset"      -> CReset(e)
+             [] e.a = "CPublish"    -> CPublish(e)
+             [] e.a = "CFrame"      -> CFrame(e)
+             [] e.a = "CQuiesce"    -> CQuiesce(e)
              [] e.a = "RpcReset"    -> RpcReset(e)
              [] e.a = "RpcSend"     -> RpcSend(e)
              [] e.a = "RpcRecv"     -> RpcRecv(e)
@@ -623,7 +651,8 @@ Step == /\ l <= Len(Events)
 
 Init == /\ l = 1
         /\ st = [legacy |-> FALSE, tz |-> "UTC", wire |-> <<>>, buf |-> <<>>, sent |-> <<>>, got |-> 0, used |-> 0,
-                  heap |-> HeapInit, rpc |-> [c \in 0..7 |-> ""]]
+                  heap |-> HeapInit, rpc |-> [c \in 0..7 |-> ""],
+                  asm |-> [c \in 0..7 |-> Idle], cdel |-> [c \in 0..7 |-> <<>>], cpub |-> [c \in 0..7 |-> <<>>]]
 Spec == Init /\ [][Step]_vars
 TraceConsumed == TLCGet("stats").diameter - 1 = Len(Events)
 =============================================================================
